@@ -204,8 +204,9 @@ var exSpec = nd.Spec{Kinds: nd.KNull | nd.KFloat | nd.KArray | nd.KObject, Depth
 // e fails, and the non-suppressible error propagates.
 func C11_Exists() {
 	mode := modePrefix()
-	which := nd.Choice(3)
+	which := nd.Choice(3 + len(laterPaths))
 	var e string
+	var doc any
 	switch which {
 	case 0:
 		e = "$.a"
@@ -213,8 +214,20 @@ func C11_Exists() {
 		e = "$[*]"
 	case 2:
 		e = "$missing"
+	default:
+		// operands whose emptiness is decided by a later item of an
+		// iteration: two-entry documents
+		e = laterPaths[which-3]
+		es := nd.Spec{Kinds: nd.KFloat | nd.KArray | nd.KObject, Depth: 1, Width: 1, Keys: []string{"a", "b"}}
+		if nd.Choice(2) == 0 {
+			doc = []any{nd.JSON(es), nd.JSON(es)}
+		} else {
+			doc = map[string]any{"a": nd.JSON(es), "b": nd.JSON(es)}
+		}
 	}
-	doc := nd.JSON(exSpec)
+	if which < 3 {
+		doc = nd.JSON(exSpec)
+	}
 	items, err := parse(mode + e).Query(bg, doc)
 	got := func() int {
 		r, qerr := parse(mode+"exists("+e+")").Query(bg, doc)
@@ -243,6 +256,15 @@ func C11_Exists() {
 	case err != nil && hardErr(err):
 		nd.Assert(got == oH, tag+"/hard-error-must-propagate")
 	case err != nil:
+		// lax mode answers at the first item: true is established if an item
+		// precedes the failure (the silent run returns exactly those items)
+		if mode == "" {
+			partial, perr := parse(e).Query(bg, doc, exec.WithSilent())
+			if perr == nil && len(partial) > 0 {
+				nd.Assert(got == oT, tag+"/lax-true-when-an-item-precedes-the-failure")
+				break
+			}
+		}
 		nd.Assert(got == oU, tag+"/unknown-when-operand-fails")
 	case len(items) == 0:
 		nd.Assert(got == oF, tag+"/false-when-empty")
